@@ -75,7 +75,7 @@ Enabled(prod) ==
                                     "Sum"}
       [] Fam = "idx"   -> prod \in {"Select", "First", "Count", "TupProj", "ListProj", "DictProj",
                                     "DictAttr", "NegIdx", "VarIdx", "SliceIdx", "OutIdx", "AbsentKey",
-                                    "Add", "Beta", "UnIdx"}
+                                    "Add", "Beta", "UnIdx", "DupKey"}
       [] Fam = "agg"   -> prod \in {"Select", "Where", "SelectMany", "Count", "Len", "Sum", "Max", "Min",
                                     "Add", "Cmp", "First", "AggExpl"}
       [] Fam = "chainp" -> prod \in {"Select", "Add", "Pack"}
@@ -96,7 +96,7 @@ Enabled(prod) ==
       [] Fam = "e2eb"  -> prod \in {"Select", "Add", "BetaSel"}     \* called lambdas resolved when the query is built
       [] Fam = "e2et"  -> prod \in {"Select", "Where", "Add", "Cmp", "Thunk"}    \* thunks before bare parameter uses
       [] Fam = "all"   -> prod \notin {"OtherMeth", "KwOp", "AggOdd", "MD", "OutIdx", "AbsentKey", "Comp", "Helper", "HelperE2E",
-                                       "AggExpl", "FuncKw", "UnIdx", "Thunk"}
+                                       "AggExpl", "FuncKw", "UnIdx", "Thunk", "DupKey", "BetaSig", "BetaSeq", "FirstProj", "OpDef"}
       [] OTHER -> FALSE
 
 (* ------------------------------------------------------------------ *)
@@ -381,6 +381,11 @@ NonLeaf(h) ==
       (IF s = "Int" /\ Enabled("DictAttr") THEN
           {Attr(Dct(<<StrC("k1"), Hole("Int", sp[1], ns, ss), StrC("k2"), Hole("Int", sp[2], ns, ss)>>),
                 "k2") : sp \in Split2(r)}
+       ELSE {}) \cup
+      (* a dictionary literal that writes a key twice: the last value counts *)
+      (IF s = "Int" /\ Enabled("DupKey") THEN
+          {Sub(Dct(<<StrC("k1"), Hole("Int", sp[1], ns, ss), StrC("k1"), Hole("Int", sp[2], ns, ss)>>), StrC("k1")) : sp \in Split2(r)} \cup
+          {Attr(Dct(<<StrC("k1"), Hole("Int", sp[1], ns, ss), StrC("k2"), IntC(1), StrC("k1"), Hole("Int", sp[2], ns, ss)>>), "k1") : sp \in Split2(r)}
        ELSE {}) \cup
       (IF s = "Int" /\ Enabled("NegIdx") THEN
           {Sub(Tup(<<Hole("Int", sp[1], ns, ss), Hole("Int", sp[2], ns, ss)>>), UnOp("-", IntC(1))) :
